@@ -83,9 +83,7 @@ def getNFTOnSender (a tokenKey : Bytes) (nonce : Nat) : M Token := do
   let (t, isNew) ← getNFTOnDestination a tokenKey nonce
   guardE isNew NewNFTDataOnSenderAddress
   guardE (nonce > 0 ∧ t.md.isNone) NFTDoesNotHaveMetadata
-  match t.md with
-  | some m => guardE (m.nonce ≠ 0 ∧ m.nonce ≠ nonce) NFTTokenDoesNotExist
-  | none => pure ()
+  guardE (match t.md with | some m => decide (m.nonce ≠ 0 ∧ m.nonce ≠ nonce) | none => false) NFTTokenDoesNotExist
   pure t
 
 /-- `saveESDTNFTToken`: returns the marshalled bytes (empty when deleted) -/
@@ -578,20 +576,28 @@ def setUserName (env : Env) (c : Call) : M VMOutput := do
 
 /-! ### ESDTNFTTransfer (esdtNFTTransfer.go) -/
 
+/-- the optional payability query -/
+def verifyPayableIf (env : Env) (must : Bool) (a : Bytes) : M Unit :=
+  if must then verifyPayable env a else pure ()
+
+/-- the hash comparison of `addNFTToDestination` (dereferences the transferred token's metadata) -/
+def checkSameHash (cur t : Token) : M Unit :=
+  match cur.md with
+  | some cm => do
+    let tm ← deref t.md
+    guardE (cm.hash ≠ tm.hash) WrongNFTOnDestination
+  | none => pure ()
+
 /-- `addNFTToDestination` (identical in esdtNFTTransfer.go and, after the repair, in
     multiESDTNFTTransfer.go); returns the transferred token as mutated by the Go code
     (`Value` = transferred + existing). -/
 def addNFTToDestination (env : Env) (dst : Bytes) (t : Token) (tokenKey : Bytes)
     (mustVerify rae : Bool) : M Token := do
-  if mustVerify then verifyPayable env dst
+  verifyPayableIf env mustVerify dst
   let nonce := match t.md with | some m => m.nonce | none => 0
   let (cur, _) ← getNFTOnDestination dst tokenKey nonce
   checkFrozeAndPause dst tokenKey cur rae
-  match cur.md with
-  | some cm =>
-    let tm ← deref t.md
-    guardE (cm.hash ≠ tm.hash) WrongNFTOnDestination
-  | none => pure ()
+  checkSameHash cur t
   let tv ← deref t.value
   let cv ← deref cur.value
   let t' := { t with value := some (tv + cv) }
